@@ -5,7 +5,7 @@ import os
 import vlib
 
 INVS = ("TypeOK MachineMatchesOutcome InitiatorOnlyNeverDeliversRequest ResponderOnlyNeverDeliversResponse "
-        "StartedIffEnabled EnabledIsReachable")
+        "StartedIffEnabled EnabledIsReachable LocalOptInOnlyAffectsOwnInitiator")
 
 
 def legacy_selftest(chk):
@@ -19,6 +19,17 @@ def legacy_selftest(chk):
         raise vlib.MachineryError("the legacy design (full-duplex flag ignored, peer-sharing guard one-sided) should violate %s, "
                                   "TLC reported %s" % (sorted(need), violated))
     chk.extra["legacy_design_rejected_by_tlc"] = violated
+    # the same for the local-option dimension: "keep-alives are opt-in" read as "no keep-alive instance unless the
+    # application sends keep-alives" leaves an enabled responder unreachable
+    r = vlib.run_tlc("net/Connection", cfg="ConnectionOptIn.cfg", timeout=400, workers=2, deadlock=False, continue_=True)
+    if r.error:
+        raise vlib.MachineryError("Connection/ConnectionOptIn.cfg: %s" % r.error)
+    violated = sorted(set(getattr(r, "violated", [])))
+    need = {"EnabledIsReachable", "StartedIffEnabled", "LocalOptInOnlyAffectsOwnInitiator"}
+    if not need <= set(violated):
+        raise vlib.MachineryError("the opt-in design (keep-alive constructed only with the local option) should violate %s, "
+                                  "TLC reported %s" % (sorted(need), violated))
+    chk.extra["optin_design_rejected_by_tlc"] = violated
 
 
 def binding_selftest(chk, drv, cases):
@@ -57,16 +68,21 @@ def run(chk, replay=None):
                 "responder's guard. TLC checks in every state of every case (configuration x version x protocol number x "
                 "direction) that an initiator-only connection never delivers a request and ends with an error, likewise "
                 "responder-only/response, that exactly the enabled protocols are registered in exactly the negotiated roles, and that "
-                "a segment for an enabled protocol in a negotiated role is delivered. Each case is replayed on a real "
+                "a segment for an enabled protocol in a negotiated role is delivered. A configuration also carries the local option "
+                "that never goes on the wire (lka = WithKeepAlive on/off): half (A) does not depend on it, it may only decide "
+                "whether the application's own keep-alive initiator runs (expectation 'any' for that one pair when off), and "
+                "LocalOptInOnlyAffectsOwnInitiator states that instances, responders, every other pair and the muxer mode are "
+                "the same with the option on and off. Each case is replayed on a real "
                 "ouroboros.Connection over an in-memory pipe against a raw peer that performs the handshake by hand (selecting the "
-                "row's version, diffusion mode and peer-sharing flag) and then writes the one segment (well-formed first request of "
+                "row's version, diffusion mode and peer-sharing flag; the connection is created with the row's WithKeepAlive) and then writes the one segment (well-formed first request of "
                 "that protocol / a responder message). Observed through the accessors, the muxer hooks (Reg, Deliver, Err), the "
                 "engine hook (Handle), the peer-sharing callback and ErrorChan; compared with the row. A case is one "
                 "(configuration, segment); all are non-trivial (each one sets up a connection and sends the segment)")
     chk.assumptions = [
         "expectations (which version carries which protocol, duplex only from NtN v10) are my transcription of the network specification / CIP-0137",
         "the Leios trio (ids 18-20, CIP-0164 prototype, no version assigned) is left open on node-to-node connections ('any'), but only in the negotiated roles; a refusing peer-sharing instance is allowed where peer sharing was not negotiated, its callback must not run",
-        "the application opts into the keep-alive initiator (WithKeepAlive(true)); WithDelayProtocolStart/WithDelayMuxerStart are not used",
+        "WithKeepAlive is a case dimension (keys of the rows with the option off end in :lka=0 before the segment); with the option off the keep-alive initiator may or may not be registered (the application's own choice), everything else is demanded as with the option on; quick tier: option off on node-to-node rows only (node-to-client/DMQ rows keep it on, where it must be without effect), thorough: every row both ways",
+        "WithDelayProtocolStart/WithDelayMuxerStart are not used",
         "which error closes the connection is not compared (a gate-case rejected because no receiver is registered counts as closed with an error); an error for a merely unroutable segment is recorded, not required",
         "one inbound segment per connection; the peer's diffusion / peer-sharing flags exist only in node-to-node version data, so node-to-client and DMQ rows have none",
     ]
